@@ -48,6 +48,24 @@ LongNext == \/ nl < NLong /\ \E l \in LongSet : AppendLabel(l)
             \/ nl = NLong /\ \E l \in TailSet : AppendLabel(l)
 LongSpec == CharInit /\ [][LongNext]_vars
 
+(* --- many minimal labels --- *)
+(* k labels of n bytes of class c (the last one always letters), `extra` more *)
+(* one-byte labels in front, optional trailing dot                            *)
+ManyName(k, n, c, extra, dot) ==
+    LET lab(i) == IF i = k THEN Run("L", n) ELSE Run(c, n)
+        body == [i \in 1..(2 * k - 1) |-> IF i % 2 = 1 THEN lab((i + 1) \div 2) ELSE Dot]
+        front == [i \in 1..(2 * extra) |-> IF i % 2 = 1 THEN Run("L", 1) ELSE Dot]
+    IN front \o body \o (IF dot THEN <<Dot>> ELSE <<>>)
+ManyCounts == {<<k, 1>> : k \in 118..128} \cup {<<k, 2>> : k \in 80..86} \cup {<<k, 3>> : k \in 60..65}
+ManySet == {ManyName(kn[1], kn[2], c, e, d) : kn \in ManyCounts, c \in {"L", "D"}, e \in {0, 1, 2}, d \in BOOLEAN}
+ManyNext == nl = 0 /\ \E m \in ManySet : s' = m /\ nl' = 1
+ManySpec == CharInit /\ [][ManyNext]_vars
+(* a name of minimal letter labels is valid exactly up to 253 bytes (127 one-byte labels) *)
+ManyInv == nl = 1 =>
+    /\ (s[Len(s)].c # "." /\ ByteLen(s) <= 253) => DomainName(s)
+    /\ (s[Len(s)].c = "." \/ ByteLen(s) > 253) => ~DomainName(s)
+    /\ Hostname(ManyName(127, 1, "L", 0, FALSE)) /\ ~DomainName(ManyName(128, 1, "L", 0, FALSE))
+
 (* --- huge rejected inputs --- *)
 HugeTotals == {1023, 1024, 1025, 1500, 5000, 70000}
 HugeKinds  == {"labelL", "labelD", "labelX", "label-", "label_", "labelL.tld", "labelX.tld",
